@@ -73,6 +73,19 @@ def r1_gate(ctx):
                         arms_seen = sorted(v for v, _ in t["arms"])
                         if arms_seen == ["2"]:
                             post_t = dict(t["arms"])["2"]
+    if post_t is None and arms_seen is None:
+        # `if *request.method() != Method::POST { 405 }` / `== Method::POST` spelling: a comparison with the POST constant
+        for c in b.calls_to(r"cmp::PartialEq(<.*>)?>?::(ne|eq)$"):
+            sides = [tr.origins(b, a) for a in c.args[:2]]
+            from_m = any(l.kind == "call" and l.detail["bb"] == m[0].bb for lv in sides for l in lv)
+            post_c = any(l.kind == "const" and (l.detail.get("name") or "").endswith("Method::POST") for lv in sides for l in lv)
+            other_c = any(l.kind == "const" and re.search(r"Method::[A-Z]+$", l.detail.get("name") or "") and not (l.detail.get("name") or "").endswith("Method::POST") for lv in sides for l in lv)
+            if from_m and post_c and not other_c:
+                is_ne = (c.name() or "").endswith("::ne")
+                for sb, arms, other in flow.switch_on(b, c.dest["l"]):
+                    t_true = other if "0" in arms else arms.get("1")
+                    post_t = arms.get("0") if is_ne else t_true
+                    arms_seen = ["2"]
     R.check(arms_seen == ["2"], "C19.R1", "method-match-is-post-only", "exactly the POST arm leads on", "the method match accepts discriminants %s of http::Method (POST is 2): another method reaches the RPC layer" % arms_seen, where(m[0]))
     true_t = false_t = None
     for sb, arms, other in flow.switch_on(b, cj[0].dest["l"]):
@@ -155,7 +168,25 @@ def r3_is_json(ctx):
     R.fn(b)
     cmp_ok = b.calls_to(r"str>::eq_ignore_ascii_case$|impl str>::eq_ignore_ascii_case$")
     cmp_bad = [c for c in b.calls if re.search(r"PartialEq.*::eq$|::starts_with$|::contains$|::eq$", c.name() or "") and not re.search(r"eq_ignore_ascii_case$", c.name() or "")]
-    R.floor("C19.R3", len(cmp_ok), 6, "content-type alternatives")
+    table = None
+    if len(cmp_ok) == 1:
+        # `TABLE.iter().any(|alt| content.eq_ignore_ascii_case(alt))`: the alternatives are the strings of a named constant
+        import json as _json
+        fnb = F.parent_body(b)
+        names = set()
+        for x in ([fnb] if fnb is not None else []) + [b]:
+            for m_ in re.finditer(r'"name": "(jsonrpsee_server::[\w:]+)"', _json.dumps(x.blocks)):
+                names.add(m_.group(1))
+        for nm in sorted(names):
+            cb = F.bodies.get(nm)
+            if cb is not None and (cb.kind.startswith("Const") or cb.kind.startswith("Static")):
+                strs = re.findall(r'"str": "((?:[^"\\]|\\.)*)"', _json.dumps(cb.blocks))
+                if strs:
+                    table = strs
+    if table is not None:
+        R.floor("C19.R3", len(table), 6, "content-type alternatives")
+    else:
+        R.floor("C19.R3", len(cmp_ok), 6, "content-type alternatives")
     R.check(not cmp_bad, "C19.R3", "all-case-insensitive", "every alternative is compared case-insensitively", "an alternative of is_json is compared with %s: an accepted spelling in another letter case is refused" % [short(c.name()) for c in cmp_bad], where(cmp_bad[0]) if cmp_bad else None)
     lits = []
     trl = ctx.tracer(follow_callers=False, follow_fields=False)
@@ -165,6 +196,8 @@ def r3_is_json(ctx):
             if l.kind == "const" and "str" in l.detail:
                 got = l.detail["str"]
         lits.append(got)
+    if table is not None:
+        lits = list(table)
     R.check(all(l is not None and re.fullmatch(r"application/json(-rpc)?(; ?charset=utf-8)?", l) for l in lits), "C19.R3", "literals", "alternatives: %s" % lits, "is_json compares with %s" % lits, "%s:%d" % (b.file, b.lo))
     R.check(len(set(lits)) == len(lits), "C19.R3", "no-duplicate-alternative", "no alternative is listed twice", "duplicate alternatives in is_json: %s" % lits, "%s:%d" % (b.file, b.lo))
 
